@@ -15,16 +15,19 @@ Open Scope Z_scope.
 Inductive res (A : Type) : Type :=
 | Val (a : A)
 | Panic
-| UB.
+| UB
+| Fuel.   (* a fuel-bounded loop of the model ran out of fuel: excluded by every theorem *)
 Arguments Val {A} a.
 Arguments Panic {A}.
 Arguments UB {A}.
+Arguments Fuel {A}.
 
 Definition bind {A B : Type} (r : res A) (f : A -> res B) : res B :=
   match r with
   | Val a => f a
   | Panic => Panic
   | UB => UB
+  | Fuel => Fuel
   end.
 
 Notation "x <- e ;; f" := (bind e (fun x => f))
